@@ -523,7 +523,7 @@ func valueTable(c *core.Ctx, l *core.Ledger) map[int64]*valueRow {
 			if k, ok := core.ConstInt(st.Val); ok && core.TypeLabel(fld.Type()) == "wire.Type" {
 				code = k
 			} else {
-				field = fld.Name()
+				field = core.FieldName(fld)
 			}
 		})
 		if code < 0 || field == "" {
@@ -553,7 +553,7 @@ func valueTable(c *core.Ctx, l *core.Ledger) map[int64]*valueRow {
 		calls := 0
 		core.Instrs(fn, func(in ssa.Instruction) {
 			if fa, ok := in.(*ssa.FieldAddr); ok {
-				fields[core.FieldOf(fa).Name()] = true
+				fields[core.FieldName(core.FieldOf(fa))] = true
 			}
 			if call, ok := in.(*ssa.Call); ok && call.Call.StaticCallee() != nil && core.InRepo(call.Call.StaticCallee()) && recvNamed(call.Call.StaticCallee()) == "Value" {
 				calls++
@@ -972,7 +972,7 @@ func checkWriterOwn(c *core.Ctx, l *core.Ledger, m *wireModel) {
 			}
 			// loads of StreamWriter.writer
 			if ld, ok := in.(*ssa.UnOp); ok {
-				if fld, _ := core.LoadedField(ld); fld != nil && fld.Name() == "writer" && core.TypeLabel(fld.Type()) == "io.Writer" {
+				if fld, _ := core.LoadedField(ld); fld != nil && core.FieldName(fld) == "writer" && core.TypeLabel(fld.Type()) == "io.Writer" {
 					if f != m.wprim {
 						l.Bad("OWN-WRITE", core.SSAName(f)+":load", c.Rel(in.Pos()), "the wrapped io.Writer is read outside the write primitive")
 					}
@@ -1252,5 +1252,5 @@ func lazyFieldRole(c *core.Ctx, fa *ssa.FieldAddr) string {
 	case "int64":
 		return "startOffset"
 	}
-	return fld.Name()
+	return core.FieldName(fld)
 }
